@@ -149,3 +149,43 @@ Definition flx_check (c0 c1 c2 c3 : Q) (cfg : iqcfg) (maxiter : nat) (x0 x1 : Q)
   | Err e, Err e' => err_eqb e e'
   | _, _ => false
   end.
+
+(* ---------- the call sites in vle.py ---------- *)
+(* class attributes of VLE (exact values of the float literals) *)
+Definition c_T_tol : Q := 944473296573929 # 18889465931478580854784.     (* 5e-8 *)
+Definition c_P_tol : Q := 1.
+Definition c_V_tol : Q := 4722366482869645 # 4722366482869645213696.       (* 1e-6 = H_hat_tol = S_hat_tol *)
+Definition c_maxiter : nat := 20.
+(* what each specification pair passes: (xtol, ytol); checkroot default (off), checkiter = checkbounds = False *)
+Inductive site := SiteTV | SitePV | SiteTH | SiteTS | SitePH | SitePS.
+Definition site_cfg (s : site) : iqcfg :=
+  match s with
+  | SiteTV | SiteTH | SiteTS => mkiqcfg c_P_tol c_V_tol false false false     (* unknown: P *)
+  | SitePV | SitePH | SitePS => mkiqcfg c_T_tol c_V_tol false false false     (* unknown: T *)
+  end.
+Definition cfg_eqb (a b : iqcfg) : bool :=
+  qeqb (xtol a) (xtol b) && qeqb (ytol a) (ytol b) && Bool.eqb (checkroot a) (checkroot b)
+  && Bool.eqb (checkiter a) (checkiter b) && Bool.eqb (checkbounds a) (checkbounds b).
+
+(* a residual known at finitely many points (recorded from the real run); elsewhere a value that the comparison rejects *)
+Definition near (a b : Q) : bool := Qle_bool (Qabs (a - b)) ((1 # 1000000000000) * Qmax 1 (Qmax (Qabs a) (Qabs b))).
+Fixpoint table (t : list (Q * Q)) (x : Q) : Q :=
+  match t with
+  | [] => 0
+  | (k, v) :: t' => if near k x then v else table t' x
+  end.
+Fixpoint covered (t : list (Q * Q)) (x : Q) : bool :=
+  match t with [] => false | (k, _) :: t' => near k x || covered t' x end.
+
+(* the real call made by vle.py for specification pair [s]: the arguments are those of the model's call site, the end
+   values bracket a sign change, and the model run on the residual AS THE SOLVER SAW IT (the recorded evaluations, then the
+   two end values it was handed) returns what the implementation returned after the same number of evaluations *)
+Definition iqsite_check (s : site) (cfg : iqcfg) (maxiter : nat) (x0 x1 y0 y1 : Q) (guess : option Q)
+  (t : list (Q * Q)) (ret : Q) (calls : nat) : bool :=
+  let t' := t ++ [(x0, y0); (x1, y1)] in
+  cfg_eqb cfg (site_cfg s) && Nat.eqb maxiter c_maxiter
+  && qleb (y0 * y1) 0
+  && match iq_interpolation rnd53 (table t') cfg maxiter x0 x1 (Some y0) (Some y1) guess with
+     | Ok (x, _, n) => qapproxb x ret && Nat.eqb n calls && covered t' x
+     | Err _ => false
+     end.
